@@ -8,7 +8,8 @@
      req    a controller-bound admin request as the receiving broker saw it
             (b, true controller before/after, request type and version, the answer given)
      sreq   a leader-/coordinator-bound admin request (b, type, version, items, answer)
-     meta / lookup   metadata and coordinator look-ups (informational)
+     meta   a metadata answer and the controller it named (-1: nobody, election in progress)
+     lookup a coordinator look-up (informational)
      ret    the value the ClusterAdmin call returned (classified by the driver)
 
    Total observer: never blocks; a false clause adds <<trace, index, clause>> to viol,
@@ -19,8 +20,8 @@ EXTENDS AdminOracle, TLC, Json
 
 Trace == ndJsonDeserialize("trace.ndjson")
 
-VARIABLES l, viol, cur, att, reqs, nops, nreq, ndrift
-vars == <<l, viol, cur, att, reqs, nops, nreq, ndrift>>
+VARIABLES l, viol, cur, att, reqs, tail, nops, nreq, ndrift
+vars == <<l, viol, cur, att, reqs, tail, nops, nreq, ndrift>>
 
 E == Trace[l]
 Tag(S) == {<<E.t, E.i, c>> : c \in S}
@@ -28,14 +29,14 @@ ToSet(s) == {s[k] : k \in DOMAIN s}
 \* array of pairs [[x, y], ...] -> function x |-> y
 PF(p) == [x \in {p[k][1] : k \in DOMAIN p} |-> (CHOOSE q \in ToSet(p) : q[1] = x)[2]]
 
-CtlCase(c) == [op |-> c.op, kv |-> c.kv, max |-> c.max, init |-> c.init, script |-> c.script]
+CtlCase(c) == [op |-> c.op, kv |-> c.kv, max |-> c.max, init |-> c.init, pre |-> c.pre, script |-> c.script]
 SpreadCase(c) == [op |-> c.op, kv |-> c.kv, own |-> PF(c.own), itemv |-> PF(c.itemv), bfault |-> PF(c.bfault)]
 
-Init == l = 1 /\ viol = {} /\ cur = [fam |-> "-"] /\ att = <<>> /\ reqs = <<>> /\ nops = 0 /\ nreq = 0 /\ ndrift = 0
+Init == l = 1 /\ viol = {} /\ cur = [fam |-> "-"] /\ att = <<>> /\ reqs = <<>> /\ tail = <<>> /\ nops = 0 /\ nreq = 0 /\ ndrift = 0
 
 TReset ==
   /\ E.ev = "reset"
-  /\ cur' = E /\ att' = <<>> /\ reqs' = <<>>
+  /\ cur' = E /\ att' = <<>> /\ reqs' = <<>> /\ tail' = <<>>
   /\ UNCHANGED <<viol, nops, nreq, ndrift>>
 
 TReq ==
@@ -44,7 +45,7 @@ TReq ==
          att2 == Append(att, a)
      IN /\ att' = att2
         /\ viol' = viol \cup (IF cur.fam = "ctl" THEN Tag(CtlReqViol(CtlCase(cur), att2)) ELSE Tag({"request_matches_operation"}))
-  /\ nreq' = nreq + 1
+  /\ nreq' = nreq + 1 /\ tail' = <<>>
   /\ UNCHANGED <<cur, reqs, nops, ndrift>>
 
 TSReq ==
@@ -53,28 +54,30 @@ TSReq ==
          reqs2 == Append(reqs, q)
      IN /\ reqs' = reqs2
         /\ viol' = viol \cup (IF cur.fam = "spread" THEN Tag(SpreadReqViol(SpreadCase(cur), reqs2)) ELSE Tag({"request_matches_operation"}))
-  /\ nreq' = nreq + 1
+  /\ nreq' = nreq + 1 /\ tail' = <<>>
   /\ UNCHANGED <<cur, att, nops, ndrift>>
 
+\* a metadata answer: remember which controller it named (NoCtl = -1: nobody) since the last request
 TInfo ==
   /\ E.ev \in {"meta", "lookup"}
+  /\ tail' = (IF E.ev = "meta" THEN Append(tail, E.named) ELSE tail)
   /\ UNCHANGED <<viol, cur, att, reqs, nops, nreq, ndrift>>
 
 TRet ==
   /\ E.ev = "ret"
   /\ IF cur.fam = "ctl"
-     THEN /\ viol' = viol \cup Tag(CtlRetViol(CtlCase(cur), att, [cls |-> E.cls, code |-> E.code]))
+     THEN /\ viol' = viol \cup Tag(CtlRetViol(CtlCase(cur), att, [cls |-> E.cls, code |-> E.code], tail))
           /\ ndrift' = ndrift + (IF cur.src # "ref" \/ (Len(att) = cur.pred_att /\ E.cls = cur.pred_cls /\ E.code = cur.pred_code) THEN 0 ELSE 1)
      ELSE /\ viol' = viol \cup Tag(SpreadRetViol(SpreadCase(cur), reqs, [cls |-> E.cls, code |-> E.code, reported |-> ToSet(E.reported)]))
           /\ ndrift' = ndrift
   /\ nops' = nops + 1
-  /\ UNCHANGED <<cur, att, reqs, nreq>>
+  /\ UNCHANGED <<cur, att, reqs, tail, nreq>>
 
 TEnd ==
   /\ E.ev = "end"
   /\ PrintT(<<"VIOL", ToJson(viol)>>)
   /\ PrintT(<<"STATS", ToJson([ops |-> nops, reqs |-> nreq, drift |-> ndrift])>>)
-  /\ UNCHANGED <<viol, cur, att, reqs, nops, nreq, ndrift>>
+  /\ UNCHANGED <<viol, cur, att, reqs, tail, nops, nreq, ndrift>>
 
 Next == /\ l <= Len(Trace)
         /\ l' = l + 1
